@@ -58,7 +58,7 @@ def survey(prog):
                 k = (f, PSEUDO_OPS.get(c.path, c.path.split("::")[-1]))
                 cnt[k] += 1
                 where.setdefault(k, b.where(bb, t.get("line")))
-            else:
+            if not is_str_op(c):
                 g = strip_closures(c.path)
                 if g in funcs and g != f:
                     edges[f].add(g)
